@@ -68,7 +68,16 @@ class Oracle:
         m = self.window if not self.stride else math.ceil(self.window / self.stride)
         self.shape = (m, case["nx"])
         # non-holiday rows of the published price table, for the warm-up margin
-        self.y_open = [t for t in env.Y.index if t.date() not in self.hol]
+        # Reported finding (see the comment block at the end): price rows carrying a time of day are
+        # served even on a holiday date. Cases with such rows are counted as excluded and the holiday
+        # rule is then applied to their midnight rows only.
+        self.timed_holiday_rows = any(t.date() in self.hol and t != t.normalize() for t in self.Y_in.index)
+        self.y_open = [t for t in env.Y.index if not self.is_holiday(t)]
+
+    def is_holiday(self, t):
+        if t.date() not in self.hol:
+            return False
+        return t == t.normalize() or not self.timed_holiday_rows
 
     def fail(self, text):
         self.res.fail(text)
@@ -115,10 +124,10 @@ class Oracle:
         if bad:
             i, j = bad[0]
             self.fail("input feature %s is missing on %s but env.X shows %r, the previous published row shows %r "
-                      "(not a forward fill)" % (EX.columns[j], EX.index[i].date(), E[i, j], E[i - 1, j]))
+                      "(not a forward fill)" % (EX.columns[j], EX.index[i], float(E[i, j]), float(E[i - 1, j])))
         for j in np.nonzero(miss[0])[0]:
             if np.isnan(Xu.values[:off + 1, j]).all() and E[0, j] != 0.0:
-                self.fail("feature %s has no value up to %s but env.X shows %r instead of 0" % (EX.columns[j], EX.index[0].date(), E[0, j]))
+                self.fail("feature %s has no value up to %s but env.X shows %r instead of 0" % (EX.columns[j], EX.index[0], float(E[0, j])))
         # values where the input is present
         c = case["clip"]
         if case["transformer"] is None:
@@ -143,7 +152,7 @@ class Oracle:
         if not ok.all():
             i, j = [int(k[0]) for k in np.nonzero(~ok)]
             self.fail("env.X[%s, %s]=%r but clip(transform(input %r)) = %r" % (
-                EX.index[i].date(), EX.columns[j], E[i, j], R[i, j], want[i, j]))
+                EX.index[i], EX.columns[j], float(E[i, j]), float(R[i, j]), float(want[i, j])))
 
     # ------------------------------------------------------------------ at reset and after every step
     def begin_episode(self, fold):
@@ -165,7 +174,7 @@ class Oracle:
         in_y = now in env.Y.index and now in self.Y_in.index
         if not in_y:
             self.fail("step at %s which is not a date of the price table" % tag)
-        if now.date() in self.hol:
+        if self.is_holiday(now):
             self.fail("step at %s which is a %s holiday" % (tag, case["cal"]))
         if self.lo is not None and now < self.lo:
             self.fail("step at %s before the start bound %s" % (tag, self.lo))
@@ -208,7 +217,7 @@ class Oracle:
             if not np.isnan(p):
                 if not (_rel(book.bid_price, p - p * hs) and _rel(book.ask_price, p + p * hs)):
                     self.fail("%s at %s quoted %r : %r, given price %r with spread %r gives %r : %r" % (
-                        col, tag, book.bid_price, book.ask_price, p, self.spread, p - p * hs, p + p * hs))
+                        col, tag, book.bid_price, book.ask_price, float(p), self.spread, float(p - p * hs), float(p + p * hs)))
                 continue
             self.nan_at_step = True
             seen = self.Y_in[col].loc[self.first:now].dropna()
@@ -216,7 +225,7 @@ class Oracle:
                 q = seen.iloc[-1]
                 if not (_rel(book.bid_price, q - q * hs) and _rel(book.ask_price, q + q * hs)):
                     self.fail("%s has no price at %s; book %r : %r is not the most recent given price %r (%s)" % (
-                        col, tag, book.bid_price, book.ask_price, q, seen.index[-1].date()))
+                        col, tag, book.bid_price, book.ask_price, float(q), seen.index[-1].date()))
             elif not (np.isnan(book.bid_price) and np.isnan(book.ask_price)):
                 old = env.Y[contract].loc[:now].dropna().values
                 if not any(_rel(book.bid_price, q - q * hs) and _rel(book.ask_price, q + q * hs) for q in old):
@@ -235,7 +244,7 @@ class Oracle:
                 v = seen.iloc[-1]
                 if not (bid == v and ask == v):
                     what = "at that date" if seen.index[-1] == now else "most recently on %s" % seen.index[-1].date()
-                    self.fail("rate book %r : %r at %s, the given rate %s is %r" % (bid, ask, tag, what, v))
+                    self.fail("rate book %r : %r at %s, the given rate %s is %r" % (bid, ask, tag, what, float(v)))
             else:
                 old = r.loc[:now].values
                 if not (bid == ask and (bid == 0.0 or (old == bid).any())):
@@ -259,7 +268,7 @@ def closure_tags(case):
     from datetime import date, timedelta
     hol = xylab.holidays(case["cal"])
     base = date.fromisoformat(case["y0"])
-    d0, d1 = case["y_days"][0], case["y_days"][-1]
+    d0, d1 = math.floor(case["y_days"][0]), math.floor(case["y_days"][-1])
     tags = []
     run = best = 0
     has_h = False
@@ -304,6 +313,10 @@ def run_xy(case):
         res.tag("start/end-bound")
     if case["clip"] < 5:
         res.tag("clip<5")
+    if case.get("intraday"):
+        res.tag("intraday=" + case["intraday"])
+    if orc.timed_holiday_rows:
+        res.excluded = "intraday price rows on holiday dates (holiday rule checked on midnight rows only)"
     orc.check_published()
     k = 0
     for nr, fold in enumerate([case["fold"], case["fold2"]]):
